@@ -1,8 +1,14 @@
 """C07 - every emitted RTLIL document is structurally well-formed.
 
-Translation validation: whole designs are converted with `amaranth.back.rtlil.convert(design, ports=...)`,
-the text goes to the Lean reader (`Model/Rtlil/Parse`) and the validator (`Model/Rtlil/WF.check`, proved
-sound against `Spec/RtlilWF.WellFormed` in `Properties/C07.wf_sound`); a rejected document is a violation.
+Translation validation: whole designs are converted with `amaranth.back.rtlil.convert(design, ports=...)`
+(half of them with `emit_src=True`, the default of `convert`, half without source locations),
+the text goes to the Lean reader (`Model/Rtlil/Parse`) and the validator (`Model/Rtlil/SrcAttr.checkAll` =
+`Model/Rtlil/WF.check`, proved sound against `Spec/RtlilWF.WellFormed` in `Properties/C07.wf_sound`, plus the
+clause for a given attribute named `src`, `Properties/C07.wf_src_sound`); a rejected document is a violation.
+
+The designs of the generator are conflict-free by construction (every signal bit has one owner), except that
+a tenth of them uses a bit of an I/O port twice (inside one I/O value, `Cat(pins[0:2], pins[1:3])`, or in two
+buffers): amaranth must refuse exactly those (DriverConflict naming the I/O port) and convert all the others.
 """
 import os
 import random
@@ -18,6 +24,9 @@ EXE = "amodel_c07"
 # exceptions by which amaranth *rejects* a design (the design does not elaborate: outside the property)
 REJECTIONS = {"DriverConflict", "CombinationalCycle", "DomainError", "NameError", "other:DuplicateElaboratable",
               "other:DomainRequirementFailed"}
+# ... but the designs of `gen_hier` give every signal bit exactly one driver, so a DriverConflict is expected exactly
+# when the design uses a bit of an I/O port twice (`Built.io_dup`), and then it must be the I/O port conflict
+IO_CONFLICT = re.compile(r"^Bit \d+ of I/O port .* used twice")
 
 F_DOLLAR = "F19"      # a user name of the form x$k collides with a de-duplicated / synthesised name
 F_SPACE = "F23"       # a name containing white space is printed verbatim: the text is not RTLIL
@@ -30,9 +39,9 @@ def esc(s):
     return '"' + s.replace("\\", "\\\\").replace('"', '\\"').replace("\n", "\\n") + '"'
 
 
-def convert_case(built):
+def convert_case(built, emit_src=False):
     from amaranth.back import rtlil
-    return rtlil.convert(built.top, ports=built.ports, emit_src=False)
+    return rtlil.convert(built.top, ports=built.ports, emit_src=emit_src)
 
 
 def names_of(built):
@@ -62,8 +71,12 @@ def design_case(seed, opts):
     case["names"] = sorted(set(names_of(built)))
     case["shapes"] = [c for c, on in ((F_WINDOW, built.has_f25), (F_ZEROIO, any(len(io) == 0 for io in built.ioports))) if on]
     case["foreign"] = "(foreign " + " ".join(built.foreign) + ")"
+    case["io_dup"] = list(built.io_dup_kinds) if built.io_dup else []
+    # source locations: drawn after the design is complete (the design of a seed does not depend on it)
+    case["emit_src"] = rng.random() < 0.5 if opts.get("src_attrs") else False
+    hist["emit_src=" + str(case["emit_src"])] = 1
     try:
-        case["text"] = convert_case(built)
+        case["text"] = convert_case(built, case["emit_src"])
     except Exception as e:
         import traceback
         tb = traceback.extract_tb(e.__traceback__)
@@ -168,8 +181,10 @@ def report(chk, summary, replay):
 
 
 def judge(chk, case, resp):
-    replay = {"design_seed": case["seed"], "stream": case["stream"], "opts": case.get("opts"),
+    replay = {"design_seed": case["seed"], "stream": case["stream"], "opts": case.get("opts"), "emit_src": case.get("emit_src", False),
               "how": "harness.checks.c07.design_case(design_seed, opts) (c02_case(design_seed) for stream c02)"}
+    gen = case["stream"] != "c02"          # a design of gen_hier: conflict-free by construction, but for `io_dup`
+    io_dup = case.get("io_dup") or []
     for k, v in case.get("hist", {}).items():
         chk.hist("constructs", k, v)
     if "generator_error" in case:
@@ -180,6 +195,19 @@ def judge(chk, case, resp):
     chk.count(1)
     if "error" in case:
         kind, msg, where = case["error"]
+        if kind == "DriverConflict" and gen:
+            if io_dup and IO_CONFLICT.match(msg):
+                chk.hist("outcome", "rejected:DriverConflict(I/O port bit used twice, as expected)")
+                for k in io_dup:
+                    chk.hist("io_dup_refused", k)
+                chk.distinct(("io_dup_refused", case["seed"]), True)
+                return
+            chk.hist("outcome", "refused:DriverConflict(unexpected)")
+            report(chk, f"a design in which every signal bit and every I/O port bit has exactly one driver is refused with "
+                          f"DriverConflict in {where}: {msg[:140]} (stream {case['stream']}, design seed {case['seed']})",
+                          dict(replay, kind="refused", error=[kind, msg, where], io_dup=io_dup, names=case.get("names"),
+                               classes=classify(case, "refused")))
+            return
         if kind in REJECTIONS:
             chk.hist("outcome", "rejected:" + kind)
             return
@@ -218,7 +246,17 @@ def judge(chk, case, resp):
                       f"(stream {case['stream']}, design seed {case['seed']})",
                       dict(replay, kind="instances", type=ty, count=n, names=case.get("names"), classes=[]))
         return
+    if io_dup:
+        # well-formed all the same (the repeated bit is only read, or the port is bidirectional), but the refusal
+        # the emitter relies on for "one driver per I/O port bit" did not happen
+        chk.hist("outcome", "io_dup_converted")
+        for k in io_dup:
+            chk.hist("io_dup_converted", k)
+        chk.not_shown("a design that uses a bit of an I/O port twice is converted instead of refused (the emitted document "
+                      "is well-formed: the repeated bit is not driven twice)", dict(replay, io_dup=io_dup))
+        return
     chk.hist("outcome", "ok")
+    chk.hist("outcome_by_emit_src", f"ok emit_src={case.get('emit_src', False)}")
     chk.hist("modules_emitted", d.get("modules"))
     nontrivial = int(d.get("cells", "0")) + int(d.get("procs", "0")) > 0
     chk.distinct(text, nontrivial)
@@ -253,7 +291,7 @@ def run(chk):
     n_main = 1400 if quick else 16000
     n_c02 = 300 if quick else 3000
     n_odd = 120 if quick else 1000
-    base = dict(instances=True, memories=True, iobufs=True, layouts=True)
+    base = dict(instances=True, memories=True, iobufs=True, layouts=True, io_cat=True, src_attrs=True)
     plan = [("design", n_main, dict(base)),
             ("design", n_odd, dict(base, odd="dollar")),
             ("design", n_odd, dict(base, odd="space")),
